@@ -2,6 +2,7 @@
 package parser
 
 import (
+	"bytes"
 	"fmt"
 	"strings"
 	"sync"
@@ -922,6 +923,20 @@ func (p *parser) closeBlocks(from, to int, reader text.Reader, pc Context) {
 	pc.SetOpenedBlocks(blocks)
 }
 
+// spaceOutTabIndent replaces one to three columns of leading indentation that
+// are written with a tab (possible only inside a container, where the next tab
+// stop is less than four columns away) by as many virtual spaces: the block
+// parsers look for their markers after spaces. It reports whether it did.
+func spaceOutTabIndent(reader text.Reader) bool {
+	line, _ := reader.PeekLine()
+	w, pos := util.IndentWidth(line, reader.LineOffset())
+	if w < 4 && pos < len(line) && bytes.IndexByte(line[:pos], '\t') >= 0 {
+		reader.AdvanceAndSetPadding(pos, w)
+		return true
+	}
+	return false
+}
+
 type blockOpenResult int
 
 const (
@@ -941,6 +956,10 @@ retry:
 	var bps []BlockParser
 	line, _ := reader.PeekLine()
 	w, pos := util.IndentWidth(line, reader.LineOffset())
+	if spaceOutTabIndent(reader) {
+		line, _ = reader.PeekLine()
+		pos = w
+	}
 	if pos >= len(line) {
 		pc.SetBlockOffset(-1)
 		pc.SetBlockIndent(-1)
@@ -1096,6 +1115,9 @@ func (p *parser) parseBlocks(parent ast.Node, reader text.Reader, pc Context) {
 				// If node is a paragraph, p.openBlocks determines whether it is continuable.
 				// So we do not process paragraphs here.
 				if !ast.IsParagraph(be.Node) {
+					if !be.Node.IsRaw() {
+						spaceOutTabIndent(reader)
+					}
 					state := be.Parser.Continue(be.Node, reader, pc)
 					if state&Continue != 0 {
 						// When current node is a container block and has no children,
